@@ -5,18 +5,10 @@
 From DV Require Import Run_C20 C20Scan C20ConnFacts C20P.
 Open Scope N_scope.
 
-(* The full property, as one statement about the functions the harness evaluates, plus the part
-   that no theorem here carries (starvation freedom under tokio's scheduling and under fair
-   releases: a bound on how often a waiting request can be overtaken). *)
-Definition overtaken (c r : N) (gss : list (list grant)) : nat :=
-  length (filter (fun g : grant => N.eqb (snd g) r && negb (N.eqb (fst (fst g)) c)) (concat gss)).
-Definition C20_no_starvation : Prop := forall max tr1 c r,
-  let s := state_after (init max) tr1 in
-  (exists p, In p (queue s) /\ p_c p = c /\ In r (p_rooms p)) ->
-  exists bound, forall tr2,
-    (forall k, ~ In (DropChan c k) tr2) ->
-    (forall g, In g (concat (run_from s tr2)) -> cr g <> (c, r)) ->
-    (overtaken c r (run_from s tr2) <= bound)%nat.
+(* The full property, as one statement about the functions the harness evaluates (exclusive,
+   bounded, once, never lost, bounded overtaking), plus its liveness reading over the model:
+   C20_no_starvation (defined in proofs/C20P.v: a waiting request is overtaken a bounded number of
+   times).  The model REFUTES the liveness part: see (7). *)
 Definition C20_full : Prop :=
   (forall c, spec_C20 c (run_C20 c) = true) /\ C20_no_starvation.
 
@@ -47,12 +39,12 @@ Theorem C20_release_progress_partial : forall s who r p,
 Proof. exact release_progress. Qed.
 Print Assumptions C20_release_progress_partial.
 
-(* (4) the whole oracle (exclusive, bounded, once, never lost) holds on every service history
-   outside the known class 1 = some release sent by a connection that does not hold the room
-   frees a locked room *)
+(* (4) exclusive, bounded, once, never lost (spec_core_lock: the service oracle without the
+   overtaking bound) hold on every service history outside the known class 1 = some release sent
+   by a connection that does not hold the room frees a locked room *)
 Theorem C20_outside_known : forall max tr,
-  known_C20 (CLock max tr) = [] -> spec_C20 (CLock max tr) (run_C20 (CLock max tr)) = true.
-Proof. exact outside_known. Qed.
+  ~ In 1%Z (known_C20 (CLock max tr)) -> spec_core_lock max tr (run_lock max tr) = true.
+Proof. exact outside_known_class1. Qed.
 Print Assumptions C20_outside_known.
 
 Theorem C20_exclusive_bounded_unless_foreign_release : forall max tr,
@@ -69,7 +61,7 @@ Print Assumptions C20_exclusive_bounded_unless_foreign_release.
 Theorem C20_conn_outside_known_partial : forall max es,
   known_C20 (CConn max es) = [] ->
   foreign_lock max (conn_trace max es) = false /\
-  spec_C20 (CLock max (conn_trace max es)) (run_C20 (CLock max (conn_trace max es))) = true.
+  spec_core_lock max (conn_trace max es) (run_lock max (conn_trace max es)) = true.
 Proof. exact conn_benign_service_ok. Qed.
 Print Assumptions C20_conn_outside_known_partial.
 
@@ -112,6 +104,24 @@ Theorem C20_refuted_conn :
   spec_C20 k1_conn_witness (run_C20 k1_conn_witness) = false /\ known_C20 k1_conn_witness = [1%Z].
 Proof. exact refuted_conn. Qed.
 Print Assumptions C20_refuted_conn.
+
+(* (7) "every requested room is eventually granted as long as granted rooms are released" is
+   REFUTED over the model (class 3): the rotation of acquire_lock re-queues a blocked waiter behind
+   the entries it has not examined.  With limit 2 and three connections (1 waits for room 5; 2 and 3
+   keep re-requesting the rooms 6 and 5 they are synchronising; 6 is always released before 5), every
+   release comes from the holder, connection 1 keeps its channel, and it is overtaken n times for
+   every n.  Replayed on the real service by the directed case "directed-K3-starvation". *)
+Theorem C20_starvation_witness : forall n,
+  foreign_lock 2 (starve_setup ++ rep n starve_cycle) = false /\
+  (exists p, In p (queue starve_state) /\ p_c p = 1 /\ In 5 (p_rooms p)) /\
+  (forall g, In g (concat (run_from starve_state (rep n starve_cycle))) -> cr g <> (1, 5)) /\
+  (forall k, ~ In (DropChan 1 k) (rep n starve_cycle)) /\
+  overtaken 1 5 (run_from starve_state (rep n starve_cycle)) = n.
+Proof. exact starvation_witness. Qed.
+Print Assumptions C20_starvation_witness.
+Theorem C20_starvation_refuted : ~ C20_no_starvation.
+Proof. exact starvation_refuted. Qed.
+Print Assumptions C20_starvation_refuted.
 
 Example C20_nonvacuous_ex : known_C20 ok_witness = [] /\
   run_from (init 2) [Request 1 [5; 6; 7] 0; Request 2 [5; 6] 0; Unlock 1 7; Unlock 1 6; Unlock 3 9; Unlock 1 5; Unlock 2 6; DropChan 2 0; Unlock 2 5] =
